@@ -254,6 +254,21 @@ func c16Message(t gen.TB, w *gen.World, source string) (*pb.QuoteV4, []byte) {
 		m := w.Q.ToProto()
 		rehome(m.ProtoReflect(), 64)
 		return m, raw
+	case "wire-with-unknown-fields":
+		// as a newer sender's message arrives: fields this version of the schema does not know, at the top level and
+		// inside nested messages; they are part of the caller's message (and are sent on when it is re-encoded)
+		m := w.Q.ToProto()
+		unk := []byte{0xf8, 0x07, 0x2a, 0xf2, 0x07, 0x03, 'n', 'e', 'w'} // field 127 varint 42, field 126 bytes "new"
+		m.ProtoReflect().SetUnknown(unk)
+		m.Header.ProtoReflect().SetUnknown(unk[:3])
+		m.TdQuoteBody.ProtoReflect().SetUnknown(unk[3:])
+		m.SignedData.CertificationData.QeReportCertificationData.QeReport.ProtoReflect().SetUnknown(unk)
+		b, _ := proto.Marshal(m)
+		m2 := &pb.QuoteV4{}
+		if err := proto.Unmarshal(b, m2); err != nil || len(m2.ProtoReflect().GetUnknown()) == 0 {
+			gen.HarnessError(t, "unknown fields do not survive the wire: %v", err)
+		}
+		return m2, raw
 	default: // wire
 		b, _ := proto.Marshal(w.Q.ToProto())
 		m := &pb.QuoteV4{}
@@ -333,8 +348,8 @@ func raceLogs() string {
 
 func TestC16(t *testing.T) {
 	replayDir(t, "C16")
-	sources := []string{"parsed", "built", "wire"}
-	snapshotSources := []string{"parsed", "built", "wire", "stale-sizes"}
+	sources := []string{"parsed", "built", "wire", "wire-with-unknown-fields"}
+	snapshotSources := []string{"parsed", "built", "wire", "stale-sizes", "wire-with-unknown-fields"}
 
 	// (1) deterministic: before/after snapshots to capacity around every single call; aliasing of parsed quotes.
 	gen.Prop(t, "snapshots", gen.N(300, 20000), func(t *rapid.T) {
@@ -600,7 +615,7 @@ func TestC16(t *testing.T) {
 				w.Q.Extra = s.Bytes(1 + s.Intn(40))
 			}
 			w.Build()
-			src := sources[round%3]
+			src := sources[round%len(sources)]
 			m, raw := c16Message(t, w, src)
 			// every third round a second, different quote (other chain bytes) is verified by some of the goroutines
 			var w2 *gen.World
@@ -610,7 +625,7 @@ func TestC16(t *testing.T) {
 				w2 = gen.NewWorld(gen.NewPKI(gen.PKISpec{Seed: gen.PKISeeds[(round+1)%4]}), gen.NewStream(gen.ProcSeed()*977+uint64(round)+500000, "c16race2"))
 				w2.ChainNUL = s.Intn(2) == 0
 				w2.Build()
-				m2, raw2 = c16Message(t, w2, sources[(round+1)%3])
+				m2, raw2 = c16Message(t, w2, sources[(round+1)%len(sources)])
 			}
 			n := 2 + s.Intn(15)
 			mix := make([]c16Call, n)
